@@ -16,6 +16,19 @@ PROPS = {
 }
 
 
+E2_BOUNDS = {
+    "*": {"quick": "program family: M0 (m0_core, m0_slices, m0_callbacks, m0_results) + 2 random modules for VERIF_SEED; all argument/return values symbolic; slices and strings <= 3 elements, "
+                   "string-slice lists <= 2x2; call histories of 3 steps over 2 handles; unwind = leaf count + 3",
+          "thorough": "program family: M0 + 12 random modules for VERIF_SEED; call histories of 4 steps; otherwise as quick"},
+    "C07": {"quick": "program family: M0 without callbacks + 1 random module, each fitted to the Dart and to the Kotlin profile; values as for C01",
+            "thorough": "program family: M0 without callbacks + 12 random modules, each fitted to the Dart and to the Kotlin profile"},
+    "C11": {"quick": "C header: every enum of M0 + 2 random modules; tables of Dart, Kotlin, C++, nanobind, JS: the family's enums + 12 adversarial patterns; variant index symbolic; 1..8 variants within i32",
+            "thorough": "as quick with 12 random modules"},
+    "C08": {"quick": "emitted JS: module m0_js (18 struct shapes), js.abi=legacy and spec; reference layout vs rustc: all structs of m0_js",
+            "thorough": "same as quick"},
+}
+
+
 def run_property(prop):
     t0 = time.time()
     spec = PROPS[prop]
@@ -100,7 +113,9 @@ def run_property(prop):
     samples = []
     for r in sorted(all_results, key=lambda r: r.name)[:400]:
         samples.append(r.to_json())
-    bounds = engine_e1.BOUNDS.get(prop, {}).get(tier(), "")
+    bounds = engine_e1.BOUNDS.get(prop, {}).get(tier(), "") if "e1" in spec["parts"] else ""
+    if "e2" in spec["parts"]:
+        bounds = (bounds + " || " if bounds else "") + E2_BOUNDS.get(prop, E2_BOUNDS["*"]).get(tier(), "")
     coverage = {
         "states": max(1, agg["vccs_generated"]),
         "transitions": max(1, agg["ssa_steps"]),
@@ -126,8 +141,11 @@ def run_property(prop):
         "exhaustive": False,
     }
     coverage.update(extra_cov)
-    assumptions = list(engine_e1.ASSUMPTIONS) + engine_e1.PER_PROP_ASSUMPTIONS.get(prop, [])
-    assumptions += extra_cov.get("extra_assumptions", [])
+    assumptions = ["Kani 0.68 / CBMC 6.11 memory model (x86_64-unknown-linux-gnu, 64-bit pointers), CaDiCaL verdicts trusted",
+                   "bounds stated in coverage.bounds; nothing is claimed beyond them (unwinding assertions are on, so a too-small unwind bound fails instead of truncating)"]
+    if "e1" in spec["parts"]:
+        assumptions += list(engine_e1.ASSUMPTIONS)[1:3] + engine_e1.PER_PROP_ASSUMPTIONS.get(prop, [])
+    assumptions += extra_cov.pop("extra_assumptions", [])
     write_evidence(prop, spec["level"], coverage, assumptions, time.time() - t0, len(violations))
 
     # ---- verdict ------------------------------------------------------------------------------
